@@ -340,3 +340,44 @@ Example C18_bucket_joint_shared_name_refuted :
   rs_joint F64 (mk_rs unit_area 7 ((0.5%float, 2.5%float) :: nil) :: mk_rs unit_area 8 ((100.5%float, 2.5%float) :: nil) :: nil)
     = (((0%Z, 1%Z) :: nil) :: (((-1)%Z, (-1)%Z) :: nil) :: nil).
 Proof. vm_compute. repeat split. Qed.
+
+(* ------------------------------------------------------------------ call histories on the caller's arrays (Model/CellSample.v)
+   A program that hands the SAME lon/lat arrays / the same SwathDefinition to module after module - any of the five, any
+   areas, any order, any repetitions - gets from every call what that call returns on the untouched arrays: the modules
+   only read the caller's arrays (ll2cr writes col/row into the copy made by astype(copy=True)). *)
+Theorem C18_history_of_read_only_calls : forall {S Out : Type} (h : list (call (S := S) (Out := Out))) (s : S),
+  Forall read_only h -> run_history h s = map (fun c => fst (c s)) h.
+Proof. intros S Out. exact (@history_independent S Out). Qed.
+Print Assumptions C18_history_of_read_only_calls.
+Theorem C18_module_history_independent : forall {T} (OP : ops T) (proj : T * T -> T * T) h s,
+  Forall (is_module_call OP proj) h -> run_history h s = map (fun c => fst (c s)) h.
+Proof. intros T OP proj. exact (module_history OP proj). Qed.
+Print Assumptions C18_module_history_independent.
+(* ll2cr without the copy: the second placement of the same arrays reads column/row numbers as coordinates -
+   a point outside the unit area (x = 9.5) is then found in cell (row 2, column 1) *)
+Example C18_history_inplace_ll2cr_refuted :
+  let id := fun p : float * float => p in
+  let s := ((9.5%float, 1.5%float) :: nil) in
+  run_history (call_ll2cr F64 id unit_area PrimFloat.nan :: call_grid F64 id unit_area :: nil) s
+    = OColRow ((9%float, 2%float, true) :: nil) :: OCells (None :: nil) :: nil /\
+  run_history (call_ll2cr_inplace F64 id unit_area PrimFloat.nan :: call_bucket F64 id unit_area :: nil) s
+    = OColRow ((9%float, 2%float, true) :: nil) :: OIdx (((-1)%Z, (-1)%Z) :: nil) :: nil /\
+  run_history (call_ll2cr_inplace F64 id unit_area PrimFloat.nan :: call_ll2cr_inplace F64 id unit_area PrimFloat.nan
+               :: call_grid F64 id unit_area :: nil) ((1.5%float, 0.5%float) :: nil)
+    = OColRow ((1%float, 3%float, true) :: nil) :: OColRow ((0.5%float, 0.5%float, true) :: nil) :: OCells (Some (3%Z, 0%Z) :: nil) :: nil.
+Proof. vm_compute. repeat split. Qed.
+
+(* ------------------------------------------------------------------ memory layout on the multi-process path (Proj_MP):
+   flatten in C order, apply the element-wise projection to the flat buffer, reshape in C order = the projection of every
+   point at its own [i, j], for every rectangular array - whatever its memory layout, because ravel() is logical C order. *)
+Theorem C18_flatten_project_reshape_is_pointwise : forall {A B : Type} (f : A -> B) (w : nat) (m : list (list A)),
+  Forall (fun r => length r = w) m -> flat_apply f ravel_C w m = map (map f) m.
+Proof. intros A B. exact (@flat_apply_pointwise A B). Qed.
+Print Assumptions C18_flatten_project_reshape_is_pointwise.
+(* flattening in MEMORY order (ravel(order='K')) a Fortran-ordered array permutes the points *)
+Example C18_layout_memory_order_refuted :
+  flat_apply (fun v : Z => (10 * v)%Z) ravel_C 3 ((1 :: 2 :: 3 :: nil) :: (4 :: 5 :: 6 :: nil) :: nil)%Z
+    = ((10 :: 20 :: 30 :: nil) :: (40 :: 50 :: 60 :: nil) :: nil)%Z /\
+  flat_apply (fun v : Z => (10 * v)%Z) (ravel_F 3) 3 ((1 :: 2 :: 3 :: nil) :: (4 :: 5 :: 6 :: nil) :: nil)%Z
+    = ((10 :: 40 :: 20 :: nil) :: (50 :: 30 :: 60 :: nil) :: nil)%Z.
+Proof. vm_compute. split; reflexivity. Qed.
